@@ -534,7 +534,7 @@ def run_unit(name, prop, tier, only_groups=None, sabotage=None):
                     if e.get('name') == sabotage['target'] or e.get('path') == sabotage['target']:
                         if e['kind'] == 'verbatim':
                             e['kind'] = 'shadow'
-                        e['rewrites'] = list(e.get('rewrites', [])) + [{k: sabotage[k] for k in ('re', 'lit', 'to', 'count') if k in sabotage}]
+                        e['rewrites'] = list(e.get('rewrites', [])) + [{k: sabotage[k] for k in ('re', 'lit', 'to', 'count', 'dotall') if k in sabotage}]
                         hit = True
                 if not hit:
                     raise Drift('sabotage target %s not staged' % sabotage['target'])
